@@ -381,3 +381,34 @@ M("C17", PR, """    def __getstate__(self) -> tuple[Any]:
             object.__setattr__(self, name, value)
         if state[-1] is not None:
             object.__setattr__(self, "_hash_value", state[-1])""")])
+
+TR = "pymbolic/imperative/transform.py"
+M("C20", TR, """    stmt_id_gen = UniqueNameGenerator(
+            {stmta.id for stmta in new_statements})""", """    stmt_id_gen = UniqueNameGenerator(
+            {stmtb.id for stmtb in statements_b})""", "id generator seeded with the wrong stream")
+M("C20", TR, """                        old_b_id_to_new_b_id[dep_id]
+                        for dep_id in stmtb.depends_on)))""", """                        dep_id
+                        for dep_id in stmtb.depends_on)))""", "dependencies not remapped")
+ST = "pymbolic/imperative/statement.py"
+M("C20", ST, """                .copy(condition=mapper(self.condition)))""", """                .copy(condition=self.condition))""",
+  "condition not mapped in ConditionalAssignment.map_expressions")
+M("C20", ST, """                    lhs=mapper(self.lhs) if include_lhs else self.lhs,""",
+  """                    lhs=self.lhs if include_lhs else mapper(self.lhs),""", "include_lhs flipped")
+M("C20", ST, """            return frozenset(dep.name for dep in get_deps(expr))""",
+  """            return frozenset(dep.name for dep in get_deps(self.rhs))""", "revert of fix 42982ea (read variables)")
+UT = "pymbolic/imperative/utils.py"
+M("C20", UT, """    for stmt_1 in dep_graph:
+        for stmt_2 in dep_graph.get(stmt_1, set()).copy():
+            for stmt_3 in dep_graph.get(stmt_2, set()).copy():
+                if stmt_3 in dep_graph.get(stmt_1, set()):
+                    dep_graph[stmt_1].remove(stmt_3)""", """    for stmt_1 in dep_graph:
+        for stmt_2 in dep_graph.get(stmt_1, set()):
+            pass""", "no transitive reduction")
+M("C20", UT, """        if not changed_something:
+            break
+""", """        break
+""", "closure: a single sweep only")
+M("C20", TR, """    for clash in id_a & id_b:
+        if should_disambiguate_name(clash):""", """    for clash in id_a & id_b:
+        if not should_disambiguate_name(clash):""", "filter inverted")
+M("C20", TR, """    vng = UniqueNameGenerator(id_a | id_b)""", """    vng = UniqueNameGenerator(id_a)""", "fresh names may collide with stream b's own identifiers")
